@@ -55,6 +55,7 @@ def gen_case(ver, rng: random.Random):
         "twice": rng.random() < 0.35,          # the same backup is restored a second time
         "keys": [(rb(16), p) for p in partners],
         "children": children,
+        "stale": rng.random() < 0.5,          # the NCP is off-network but still holds link keys of an earlier network / unfinished restore (the key table outlives a network; the child table does not)
         "dropChild": rng.random() < 0.6,      # afterwards the child in the lowest slot leaves and the settings are read once more
     }
 
@@ -68,6 +69,10 @@ def run_case(case):
         app, ezsp, gw, ncp = await apprig.make_app(loop, ver)
         store = ncp_netinfo.NetStore(ncp, rewritable_eui=case["rewritable"])
         ncp.reset_hooks = [store.on_reset]
+        if case.get("stale"):
+            # left over in the NCP's tokens (the stack itself is not running, no network stored): they must not come back with the restored network
+            store.keys[-1] = (bytes([0x77] * 16), bytes([0x88] * 8))
+            store.keys[-2] = (bytes([0x79] * 16), bytes([0x8A] * 8))
         cur = store.factory_eui
         if case["ieee"] == "same":
             node_ieee = zt.EUI64(cur)
